@@ -3,6 +3,7 @@ import RedisVerif.Model.GrammarTable
 import RedisVerif.Model.LuaConv
 import RedisVerif.Model.LuaScript
 import RedisVerif.Model.GrammarGen
+import RedisVerif.Lemmas.GrammarErrs
 import RedisVerif.Props.C16
 
 /-
@@ -33,6 +34,9 @@ import RedisVerif.Props.C16
                         arity text, constructors, slot kinds, optional slots, tail, option table, unknown-word
                         policy, literals of the finishing function | end
     FA <i>            → family i of `table`: name and the text of a missing sub-command | end
+    HL <i>            → extract helper i of the RESP parsers as the slot kinds model it: name, parsed type, the text of
+                        a parse failure (`std` = the text of Rust's ParseIntError) | end
+    DF                → what a command name without a table entry answers: RESP parsers / translator
   RESP values (prefix notation):  +<hex>  -<hex>  :<int>  $<hex>  $-  *-  *<n> v1 … vn
   Lua values:                     nil true false i<int> n<int> s<hex> ok<hex> err<hex> t<n> v1 … vn
 -/
@@ -301,6 +305,19 @@ def showUnsigned : Except IntErr Nat → String
   | .error .invalid => "invalid"
   | .error .overflow => "overflow"
 
+/-- the extract helpers of the RESP parsers and the slot kind that models each -/
+def helperRows : List (String × ArgKind × String) :=
+  [ ("extract_string", .str, "-"), ("extract_sds", .sds, "-"), ("extract_integer", .int, "int64"),
+    ("extract_float", .flt, "f64"), ("extract_i64", .int, "int64"), ("extract_u64", .u64, "u64") ]
+
+def showHelper (r : String × ArgKind × String) : String :=
+  let errs := argErrs ⟨r.2.1, none⟩
+  let perr := match errs with
+    | [] => "-"
+    | [l] => hexOfBytes l.text
+    | _ => "std"
+  s!"name={r.1} ty={r.2.2} perr={perr}"
+
 def step (line : String) : String :=
   match tokens line with
   | "P" :: ts => match hexArgs ts with
@@ -369,6 +386,15 @@ def step (line : String) : String :=
         s!"name={strOf nm} aerr={hexOfBytes a} probe={probe}"
       | none => "end"
     | none => "bad-op"
+  | ["HL", i] => match i.toNat? with
+    | some n => match helperRows[n]? with
+      | some r => showHelper r
+      | none => "end"
+    | none => "bad-op"
+  | ["DF"] =>
+    let r := (showRes (parseCmd [s2b "ZZZ"])).replace " " "_"
+    let l := (showAccept (parseLua [s2b "ZZZ"])).replace " " "_"
+    s!"resp={r} lua={l}"
   | ["TN"] =>
     let names := (table.map Entry.name).map strOf
     ",".intercalate (names.toArray.qsort (· < ·)).toList
